@@ -66,6 +66,15 @@ static std::string tok_tcard(const TMCG_Card &c) {
 	}
 	return r;
 }
+static std::string tok_tsecret(const TMCG_CardSecret &c) {
+	std::string r;
+	for (size_t i = 0; i < c.r.size(); i++) {
+		if (i) r += ";";
+		for (size_t j = 0; j < c.r[i].size(); j++) { if (j) r += ","; r += hx(&c.r[i][j]) + "," + hx(&c.b[i][j]); }
+		if (c.r[i].empty()) r += "_";
+	}
+	return r;
+}
 static std::string tok_vstack(const TMCG_Stack<VTMF_Card> &s) {
 	if (s.size() == 0) return "_";
 	std::string r; for (size_t i = 0; i < s.size(); i++) { if (i) r += ";"; r += tok_vcard(s[i]); } return r;
@@ -138,12 +147,18 @@ int main(int argc, char **argv) {
 		std::string m = mutate(s);
 		TMCG_Card e; ok = e.import(m);
 		Rec("tcard_imp").b(m).t(ok ? tok_tcard(e) : "none");
-		// TMCG_CardSecret: implementation-level oracle only (same layout as the card, two matrices)
+		// TMCG_CardSecret: same layout as the card, two matrices with interleaved entries (model-compared)
 		TMCG_CardSecret cs(k, w);
 		for (size_t a = 0; a < k; a++) for (size_t b = 0; b < w; b++) { gen_int(&cs.r[a][b], 200); mpz_set_ui(&cs.b[a][b], gen().below(2)); }
+		if (gen().below(4) == 0) for (size_t a = 0; a < k; a++) for (size_t b = 0; b < w; b++) gen_int(&cs.b[a][b], 64);   // b is parsed as a full integer
 		s = exp(cs);
-		TMCG_CardSecret ds; ok = ds.import(s);
-		if (!ok || exp(ds) != s) propfail("tcardsecret-roundtrip", "TMCG_CardSecret " + s.substr(0, 200) + " does not round-trip");
+		Rec("tsec_exp").t(tok_tsecret(cs)).b(s);
+		TMCG_CardSecret ds(1 + gen().below(3), 1 + gen().below(3)); ok = ds.import(s);   // used object of other dimensions
+		if (!ok || exp(ds) != s || tok_tsecret(ds) != tok_tsecret(cs)) propfail("tcardsecret-roundtrip", "TMCG_CardSecret " + s.substr(0, 200) + " does not round-trip");
+		Rec("tsec_imp").b(s).t(ok ? tok_tsecret(ds) : "none");
+		m = mutate(s);
+		TMCG_CardSecret es; ok = es.import(m);
+		Rec("tsec_imp").b(m).t(ok ? tok_tsecret(es) : "none");
 	}
 	// ---- stacks and stack secrets ---------------------------------------------------------------------
 	for (unsigned i = 0; i < N / 4; i++) {
